@@ -62,6 +62,7 @@ def run(ctx, repo):
     ctx.call(RG.r_parser_grammar, repo, max_len=8 if ctx.tier == 'thorough' else 6)
     ctx.call(RSTATE.r_directives_reset, repo)
     ctx.call(R6B.r_recursion_inventory, repo, ('composer', 'constructor', 'resolver'))
+    ctx.call(R6B.r_value_chain_visited, repo)
 
 
 if __name__ == '__main__':
